@@ -11,7 +11,7 @@ EXTENDS Integers, Sequences, FiniteSets, TLC
 M16(x)      == ((x % 65536) + 65536) % 65536
 Bit(x, i)   == (x \div (2 ^ i)) % 2
 PairSet(p)  == {p.pid} \cup { M16(p.pid + i + 1) : i \in { j \in 0..15 : Bit(p.blp, j) = 1 } }
-Covered(ps) == UNION { PairSet(ps[i]) : i \in 1..Len(ps) }
+NackCovered(ps) == UNION { PairSet(ps[i]) : i \in 1..Len(ps) }
 SeqSet(s)   == { s[i] : i \in 1..Len(s) }
 \* PID first, then PID+i+1 for each set bit i in ascending i
 RECURSIVE BitsFrom(_, _, _)
@@ -33,7 +33,7 @@ RefPairs(input) == IF input = << >> THEN << >> ELSE BuildFrom(input, 2, << >>, [
 
 \* ---- clauses for recorded calls ----
 NackPairsTags(input, out) ==
-  (IF Covered(out) # SeqSet(input) THEN {"C12:cover"} ELSE {})
+  (IF NackCovered(out) # SeqSet(input) THEN {"C12:cover"} ELSE {})
   \cup (IF \E i \in 1..Len(out) : out[i].pid \notin 0..65535 \/ out[i].blp \notin 0..65535 THEN {"C12:cover"} ELSE {})
 PacketListsTags(id, bms, out) ==
   IF Len(out) # Len(bms) \/ \E i \in 1..Len(bms) : out[i] # PacketList([pid |-> id, blp |-> bms[i]]) THEN {"C12:packetlist"} ELSE {}
